@@ -94,7 +94,7 @@ pub fn run(opts: &Opts) -> i32 {
     let tries = opts.u64("tries", 2);
     for i in 0..tries {
         let image = format!("{keep}/f3_{i}.img");
-        let g = crate::img::run_child(&["f3child".into(), format!("path={image}")], 30).unwrap_or_default();
+        let g = crate::img::run_child(&["f3child".into(), format!("path={image}")], 180).unwrap_or_default();
         if !g.starts_with("f3-done") {
             out.emit3(&format!("note f3-not-staged {}", g.replace(' ', "_")), "note", "ok");
             continue;
